@@ -1,3 +1,4 @@
+import Lean.Elab.Tactic
 import FeatherModel.Model.TotalBase
 
 /-!
@@ -117,19 +118,26 @@ theorem addU16_mem {site a b : Nat} (h : site ∈ S) : Spec S B (addU16 site a b
 theorem subU_le {site a b : Nat} (h : b ≤ a) : Spec S B (subU site a b) (fun r => r = a - b) := by
   unfold subU; rw [if_pos h]; exact ret _ rfl
 
-theorem u8 (s : Bytes) : Spec S B (Total.u8 s) (fun r => s.length = r.2.length + 1) := by
+theorem byte_le (a : Nat) : byte a ≤ 255 := by unfold byte; omega
+
+theorem u8 (s : Bytes) : Spec S B (Total.u8 s) (fun r => s.length = r.2.length + 1 ∧ r.1 ≤ 255) := by
   unfold Total.u8; split
-  · exact ret _ (by simp)
+  · exact ret _ ⟨by simp, byte_le _⟩
   · exact fail
 
-theorem u16 (s : Bytes) : Spec S B (Total.u16 s) (fun r => s.length = r.2.length + 2) := by
+theorem u16 (s : Bytes) : Spec S B (Total.u16 s) (fun r => s.length = r.2.length + 2 ∧ r.1 ≤ 65535) := by
   unfold Total.u16; split
-  · exact ret _ (by simp)
+  · rename_i a b r
+    exact ret _ ⟨by simp, by have := byte_le a; have := byte_le b; show byte a * 256 + byte b ≤ 65535; omega⟩
   · exact fail
 
-theorem u32 (s : Bytes) : Spec S B (Total.u32 s) (fun r => s.length = r.2.length + 4) := by
+theorem u32 (s : Bytes) : Spec S B (Total.u32 s) (fun r => s.length = r.2.length + 4 ∧ r.1 ≤ 4294967295) := by
   unfold Total.u32; split
-  · exact ret _ (by simp)
+  · rename_i a b c d r
+    refine ret _ ⟨by simp, ?_⟩
+    have := byte_le a; have := byte_le b; have := byte_le c; have := byte_le d
+    show ((byte a * 256 + byte b) * 256 + byte c) * 256 + byte d ≤ 4294967295
+    omega
   · exact fail
 
 theorem takeVec {n : Nat} (s : Bytes) (h : n ≤ B) : Spec S B (Total.takeVec n s) (fun r => r.1.length = n) := by
@@ -181,12 +189,52 @@ theorem PanicsIn.not_panic {α : Type} {m : TM α} (h : PanicsIn [] m) (st : Acc
   have := h st s e
   simp at this
 
+
+/-! ## evaluating a computation step by step (for the witnesses) -/
+
+theorem bnd_apply {α β : Type} (m : TM α) (f : α → TM β) (st : Acct) :
+    (m >>= f) st = (match m st with
+      | (.ok a, st') => f a st'
+      | (.err, st') => (.err, st')
+      | (.panic s, st') => (.panic s, st')) := rfl
+theorem ret_apply {α : Type} (a : α) (st : Acct) : (Pure.pure a : TM α) st = (.ok a, st) := rfl
+theorem fail_apply {α : Type} (st : Acct) : (TM.fail : TM α) st = (.err, st) := rfl
+theorem crash_apply {α : Type} (s : Nat) (st : Acct) : (TM.crash s : TM α) st = (.panic s, st) := rfl
+theorem enter_apply (d : Nat) (st : Acct) : TM.enter d st = (.ok (), { st with depth := max st.depth d }) := rfl
+theorem request_apply (d : Nat) (st : Acct) : TM.request d st = (.ok (), { st with alloc := max st.alloc d }) := rfl
+theorem requestBig_apply (d : Nat) (st : Acct) : TM.requestBig d st = (.ok (), { st with big := max st.big d }) := rfl
+
+/-- a panic of the first computation is the panic of the sequence -/
+theorem bind_panic {α β : Type} {m : TM α} {f : α → TM β} {st : Acct} {s : Nat} (h : (m st).1 = .panic s) :
+    ((m >>= f) st).1 = .panic s := by
+  rw [bnd_apply]
+  cases hr : m st with
+  | mk o st1 =>
+    rw [hr] at h
+    cases o with
+    | ok a => simp at h
+    | err => simp at h
+    | panic s1 => simpa using h
+
 /-! ## the `pin` tactic: walk through a `do` block -/
+
+open Lean Elab Tactic Meta in
+/-- succeeds iff the goal is syntactically `Spec …` -/
+elab "spec_goal" : tactic => do
+  let g ← whnfR (← instantiateMVars (← getMainTarget))
+  unless g.getAppFn.isConstOf ``Total.Spec do throwError "not a Spec goal"
+
+open Lean Elab Tactic Meta in
+/-- succeeds iff the goal is syntactically a `∀` / `→` -/
+elab "pi_goal" : tactic => do
+  let g ← whnfR (← instantiateMVars (← getMainTarget))
+  unless g.isForall do throwError "not a pi goal"
+  unless (← inferType g).isProp do throwError "not a proposition"
 
 /-- extensible: closes a goal `Spec S B (f args) ?Q` for a function whose lemma is registered -/
 syntax "pin_lemma" : tactic
 macro_rules | `(tactic| pin_lemma) => `(tactic| assumption)
-macro_rules | `(tactic| pin_lemma) => `(tactic| (with_reducible refine Spec.ret _ ?_) <;> trivial)
+macro_rules | `(tactic| pin_lemma) => `(tactic| (with_reducible refine Spec.ret _ ?_) <;> try trivial)
 macro_rules | `(tactic| pin_lemma) => `(tactic| with_reducible exact Spec.fail)
 macro_rules | `(tactic| pin_lemma) => `(tactic| with_reducible exact Spec.guard _)
 macro_rules | `(tactic| pin_lemma) => `(tactic| with_reducible exact Spec.requestBig _)
@@ -201,13 +249,12 @@ macro_rules | `(tactic| pin_lemma) => `(tactic| (with_reducible refine Spec.addU
 macro_rules | `(tactic| pin_lemma) => `(tactic| (with_reducible refine Spec.addU8_mem ?_) <;> decide)
 macro_rules | `(tactic| pin_lemma) => `(tactic| (with_reducible refine Spec.crash ?_) <;> decide)
 
-/-- one structural step -/
+/-- one structural step; goals that are not of the form `Spec …` / `∀ …` are left alone -/
 macro "pin_step" : tactic => `(tactic| first
-  | pin_lemma
-  | with_reducible apply Spec.bind
-  | with_reducible intro _
-  | split)
+  | (spec_goal; first | pin_lemma | with_reducible apply Spec.bind | split)
+  | (pi_goal; intro _))
 
+/-- walks through the `do` block; what remains are the postconditions that are not `True` -/
 macro "pin" : tactic => `(tactic| repeat' pin_step)
 
 end Total
